@@ -521,6 +521,14 @@ def monitor(case, obs):
           grew += 1
           if kind in ('onget', 'onput') and size_before + grew - 1 >= mx_size:
             add('load-growth-beyond-max-size', '%s: load-driven expansion at size %d with max_size %d' % (tag, size_before + grew - 1, mx_size))
+          if kind == 'down' and head[2] == 1:
+            # the member the heap found "down" is merely still connecting (channel Idle): no failure, no departure,
+            # and not the load rule either -> this growth is not exempt from max_size and has no reason at all
+            add('growth-for-connecting-member', '%s: expansion to %s because member %s is still connecting (channel Idle), no failure and no load rule'
+                % (tag, e[1], head[1]))
+            if size_before + grew - 1 >= mx_size:
+              add('load-growth-beyond-max-size', '%s: expansion at size %d with max_size %d while serving a request, no member failed (member %s is only still connecting)'
+                  % (tag, size_before + grew - 1, mx_size, head[1]))
         elif e[0] == 'create':
           for c in cur:
             if c[0] == e[2] and c[1] is None:
